@@ -8,7 +8,7 @@ SCALAR_CLASSES = ['int', 'float', 'bool', 'blank', 'numtext', 'text', 'emptytext
 
 def gen(rnd, cls):
     if cls == 'int':
-        return rnd.choice([0, 1, -1, 2, 7, -13, 60, 61, 365, 43789, 10 ** 6, -10 ** 6, 10 ** 12, rnd.randint(-1000, 1000)])
+        return rnd.choice([0, 1, -1, 2, 7, -13, 60, 61, 365, 43789, 10 ** 6, -10 ** 6, 10 ** 12, 2 ** 53 + 1, 10 ** 20 + 7, -(3 ** 40), rnd.randint(-1000, 1000)])
     if cls == 'float':
         return rnd.choice([0.5, -0.5, 2.25, 1e-6, 123456.789, -3.75, 1e9 + 0.5, 0.1, 43789.5, 1.0, 0.0, rnd.uniform(-1000, 1000),
                            round(rnd.uniform(-10, 10), rnd.randint(1, 6)), rnd.uniform(-1, 1) * 10 ** rnd.randint(-6, 9)])
